@@ -381,6 +381,78 @@ fn c20_real_stub() -> Value {
     })
 }
 
+struct MiriResult {
+    invocations: u64,
+    miri_seeds: u64,
+    programs: u64,
+    executions_ok: u64,
+    wall_s: f64,
+    failure: Option<(String, Value)>,
+}
+
+/// One invocation of the Miri tier: `programs` generated programs, each
+/// executed under `miri_seeds` different Miri scheduler seeds.
+fn miri_invoke(seed: u64, first: u64, programs: u64, miri_seeds: u64) -> Result<(u64, String), String> {
+    let flags = format!("-Zmiri-many-seeds=0..{miri_seeds} -Zmiri-preemption-rate=0.1");
+    let out = std::process::Command::new("cargo")
+        .current_dir("/verif/miri-c20")
+        .env("MIRIFLAGS", &flags)
+        .env_remove("RUSTFLAGS")
+        .args(["+nightly", "miri", "run", "--offline", "--"])
+        .arg(seed.to_string())
+        .arg(first.to_string())
+        .arg(programs.to_string())
+        .output()
+        .map_err(|e| format!("cannot run cargo miri: {e}"))?;
+    let stdout = String::from_utf8_lossy(&out.stdout).to_string();
+    let stderr = String::from_utf8_lossy(&out.stderr).to_string();
+    let done = stdout.lines().filter(|l| l.starts_with("MIRI-DONE") && l.ends_with("failures=0")).count() as u64;
+    if out.status.success() && done == miri_seeds {
+        return Ok((done, String::new()));
+    }
+    // Distinguish "Miri found something" from "Miri could not run".
+    let ub = stderr.contains("Undefined Behavior")
+        || stderr.contains("memory leaked")
+        || stderr.contains("data race")
+        || stdout.contains("MIRI-FAIL")
+        || stderr.contains("panicked at");
+    let excerpt: String = stderr
+        .lines()
+        .filter(|l| l.starts_with("error") || l.contains("Undefined Behavior") || l.contains("leaked") || l.contains("MIRI-FAIL"))
+        .chain(stdout.lines().filter(|l| l.contains("MIRI-FAIL")))
+        .take(12)
+        .collect::<Vec<_>>()
+        .join("\n");
+    if ub {
+        Ok((done, if excerpt.is_empty() { "miri reported a failure".into() } else { excerpt }))
+    } else {
+        Err(format!("cargo miri failed without a finding: {}", stderr.lines().rev().take(5).collect::<Vec<_>>().join(" | ")))
+    }
+}
+
+fn run_miri_tier(seed: u64, invocations: u64, programs: u64, miri_seeds: u64) -> Result<MiriResult, String> {
+    let start = std::time::Instant::now();
+    let mut res = MiriResult { invocations: 0, miri_seeds, programs: 0, executions_ok: 0, wall_s: 0.0, failure: None };
+    for b in 0..invocations {
+        let first = b * programs;
+        let (ok, fail) = miri_invoke(seed, first, programs, miri_seeds)?;
+        res.invocations += 1;
+        res.programs += programs;
+        res.executions_ok += ok * programs;
+        if !fail.is_empty() {
+            res.failure = Some((
+                fail.clone(),
+                json!({"property": "C20-miri", "clause": "miri", "detail": fail,
+                       "verif_seed": seed, "first_program": first, "programs": programs, "miri_seeds": miri_seeds,
+                       "command": format!("cd /verif/miri-c20 && MIRIFLAGS='-Zmiri-many-seeds=0..{miri_seeds} -Zmiri-preemption-rate=0.1' cargo +nightly miri run --offline -- {seed} {first} {programs}")}),
+            ));
+            break;
+        }
+    }
+    res.wall_s = start.elapsed().as_secs_f64();
+    Ok(res)
+}
+
 fn run_c20(args: &Args) -> i32 {
     if let Err(e) = zonegen::self_check() {
         harness_error(&format!("generator self-check failed: {e}"));
@@ -473,7 +545,40 @@ fn run_c20(args: &Args) -> i32 {
             }
         }
     }
+    // Miri tier (thorough only, or `--miri <invocations>`).
+    let miri_inv = opt_u64(args, "miri", if tier == Tier::Thorough { 6 } else { 0 });
+    let mut miri_json = json!({"ran": false, "reason": "thorough tier only"});
+    if miri_inv > 0 && exit == 0 {
+        let programs = opt_u64(args, "miri-programs", 6);
+        let mseeds = opt_u64(args, "miri-seeds", 64);
+        match run_miri_tier(seed, miri_inv, programs, mseeds) {
+            Err(e) => harness_error(&e),
+            Ok(m) => {
+                println!(
+                    "miri tier: {} invocation(s) x {} programs x {} scheduler seeds = {} clean executions in {:.0}s",
+                    m.invocations, programs, m.miri_seeds, m.executions_ok, m.wall_s
+                );
+                miri_json = json!({"ran": true, "invocations": m.invocations, "programs": m.programs,
+                    "miri_scheduler_seeds_per_program": m.miri_seeds, "clean_executions": m.executions_ok,
+                    "wall_s": m.wall_s,
+                    "flags": "-Zmiri-many-seeds -Zmiri-preemption-rate=0.1",
+                    "detects": "use-after-free, double free, invalid free, leaks, data races, invalid pointer tags/provenance"});
+                if let Some((detail, rf)) = m.failure {
+                    let _ = std::fs::create_dir_all(&replay_dir);
+                    let path = replay_dir.join(format!("C20-{seed}-miri-{}.json", rf["first_program"]));
+                    let _ = std::fs::write(&path, serde_json::to_string_pretty(&rf).unwrap());
+                    println!("violated clause: miri");
+                    println!("detail: {detail}");
+                    println!("VIOLATION property=C20 replay={}", path.display());
+                    violations += 1;
+                    exit = 1;
+                    extra = json!({"violation": {"clause": "miri", "detail": detail, "replay": path}});
+                }
+            }
+        }
+    }
     if let Value::Object(ref mut m) = extra {
+        m.insert("miri_tier".into(), miri_json);
         m.insert(
             "fixed_offset_sweep".into(),
             json!({"offsets_checked": sweep.as_ref().ok().copied().unwrap_or(0), "range": [-93599, 93599], "exhaustive": sweep.is_ok(), "wall_s": sweep_s}),
@@ -570,6 +675,41 @@ fn run_replay(args: &Args) -> i32 {
             match driver::replay(&p, Path::new(path)) {
                 Err(e) => harness_error(&e),
                 Ok((rf, viol, trace)) => report_replay(&rf.property, &rf.clause, path, &viol, &trace, args),
+            }
+        }
+        "C20-miri" => {
+            let (sd, first, n, ms) = (
+                v["verif_seed"].as_u64().unwrap_or(1),
+                v["first_program"].as_u64().unwrap_or(0),
+                v["programs"].as_u64().unwrap_or(1),
+                v["miri_seeds"].as_u64().unwrap_or(8),
+            );
+            match miri_invoke(sd, first, n, ms) {
+                Err(e) => harness_error(&e),
+                Ok((_, fail)) if fail.is_empty() => {
+                    println!("replay of {path}: Miri reports nothing on the current tree");
+                    0
+                }
+                Ok((_, fail)) => {
+                    println!("reproduced: clause=miri {fail}");
+                    println!("VIOLATION property=C20 replay={path}");
+                    1
+                }
+            }
+        }
+        "C20-sweep" => {
+            c20::warm_up();
+            alloc::enable();
+            match c20::fixed_sweep() {
+                Ok(n) => {
+                    println!("replay of {path}: fixed-offset sweep clean ({n} offsets)");
+                    0
+                }
+                Err(v) => {
+                    println!("reproduced: clause={} {}", v.clause, v.detail);
+                    println!("VIOLATION property=C20 replay={path}");
+                    1
+                }
             }
         }
         "C20" => {
